@@ -15,6 +15,29 @@ from __future__ import print_function
 from .. import core, observe
 
 
+class LazyParts(object):
+    """A sequence of parts computed on demand: part(k) -> (fragment, assignment)."""
+    lazy = True
+
+    def __init__(self, n, part):
+        self.n, self.part = n, part
+
+    def __len__(self):
+        return self.n
+
+    def __getitem__(self, k):
+        if isinstance(k, slice):
+            return [self.part(i) for i in range(*k.indices(self.n))]
+        if k < 0:
+            k += self.n
+        if not 0 <= k < self.n:
+            raise IndexError(k)
+        return self.part(k)
+
+    def __iter__(self):
+        return (self.part(i) for i in range(self.n))
+
+
 class Block(object):
     """twin: a second family whose prefix is used for the *same* body right after each point
     (v3.0 / v3.1): forces collisions in anything keyed without the minor version."""
@@ -23,7 +46,7 @@ class Block(object):
         self.name = name
         self.family = family
         self.twin = twin
-        self.A = list(A)
+        self.A = A if getattr(A, "lazy", False) else list(A)
         self.B = list(B) if B is not None else [("", {})]
         self.C = list(C) if C is not None else [("", {})]
         self.prefix = prefix  # None -> family prefix
